@@ -293,6 +293,16 @@ def refuses_additions(rec, label, sess, top, final, case):
     for mname, m in list(sess.built.modules.items()):
         if m._elaborated is None:
             continue
+        # ... also a Literal, through the list that is the documented way to add one
+        for form in ("append", "extend", "insert"):
+            rec.count("additions.attempted")
+            try:
+                lit = h.Literal(text="* added after elaboration")
+                {"append": lambda: m.literals.append(lit), "extend": lambda: m.literals.extend([lit]), "insert": lambda: m.literals.insert(0, lit)}[form]()
+            except Exception:
+                continue
+            rec.violation("post-elaboration-addition-accepted", f"[{label}] literals.{form} of a Literal on the elaborated module {mname} was accepted", case=case,
+                          form="literals." + form, target="literal")
         held = {"signal": next(iter(m.signals), None), "port": next(iter(m.ports), None), "instance": next(iter(m.instances), None)}
         for target, name in [("fresh", "zzadd")] + [(k, v) for k, v in held.items() if v]:
             for vk, mk in (("Signal", lambda: h.Signal()), ("Port", lambda: h.Input(width=2)), ("Instance", lambda: h.Instance(of=leaf))):
